@@ -69,6 +69,55 @@ def profileCoordinatesTbl (point1 point2 : List (List Rat)) (size : Int) (extra 
   let pts ← profilePoints (pt point1) (pt point2) size
   pure ([pts.map (·.1), pts.map (·.2.1)] ++ extra.map (fun v => pts.map fun _ => v), pts.map (·.2.2))
 
+/-! Primitives of the translation of `BaseGridder.grid`: a tuple of coordinate (or data) arrays of either dimensionality is a
+    `List CoordArr`; the helpers of utils.py / coordinates.py that `grid` calls are the model's own functions behind these wrappers. -/
+def CoordArr.arr2 : CoordArr → Arr2
+  | .d2 a => a
+  | .d1 v => [v]
+/-- `get_ndim_horizontal_coords(*coordinates[:2])`: the common number of dimensions of the two arrays (`ValueError` if they differ;
+    fewer than two arrays is a missing positional argument). -/
+def getNdimHorizontalCoords (xy : List CoordArr) : Except Err Nat :=
+  match xy with
+  | [.d1 _, .d1 _] => .ok 1
+  | [.d2 _, .d2 _] => .ok 2
+  | [_, _] => .error .valueError
+  | _ => .error .typeError
+/-- `meshgrid_from_1d(coordinates)`: 1-D horizontal coordinates become their meshgrid; extra coordinates must already have that shape. -/
+def meshgridFrom1dN (cs : List CoordArr) : Except Err (List CoordArr) :=
+  match cs with
+  | .d1 e :: .d1 n :: ex =>
+    if ex.all fun x => isRect x.arr2 n.length e.length then .ok (.d2 (meshgridFrom1d e n).1 :: .d2 (meshgridFrom1d e n).2 :: ex)
+    else .error .valueError
+  | _ => .error .valueError
+/-- `check_meshgrid(coordinates)` (together with the shape test `make_xarray_grid` repeats through `meshgrid_to_1d`). -/
+def checkMeshgridN (cs : List CoordArr) : Except Err Unit :=
+  match cs with
+  | .d2 E :: .d2 N :: ex => do let _ ← meshgridTo1d E N (ex.map (·.arr2)); pure ()
+  | _ => .error .valueError
+/-- `grid_coordinates(region, shape=…, spacing=…, adjust=…, pixel_register=…, extra_coords=…)` (meshgrid form). -/
+def gridCoordinatesN (region : List Rat) (shape : Option (Nat × Nat)) (spacing : Option (List Rat)) (adjust : Adjust) (pixel : Bool)
+    (extra : List Rat) : Except Err (List CoordArr) := do
+  let cs ← gridCoordinates region ⟨shape, spacing, adjust, pixel⟩ extra
+  pure (cs.map .d2)
+/-- `projection(*xy)` acting element-wise on two arrays of the same dimensionality. -/
+def applyProjTblN (f : Rat × Rat → Rat × Rat) (xy : List CoordArr) : List CoordArr :=
+  match xy with
+  | [.d2 E, .d2 N] => [.d2 (List.zipWith (List.zipWith fun x y => (f (x, y)).1) E N), .d2 (List.zipWith (List.zipWith fun x y => (f (x, y)).2) E N)]
+  | [.d1 e, .d1 n] => [.d1 (List.zipWith (fun x y => (f (x, y)).1) e n), .d1 (List.zipWith (fun x y => (f (x, y)).2) e n)]
+  | _ => []
+/-- `check_data(self.predict(coordinates))` on arrays of either dimensionality: one array per component, in the coordinates' shape. -/
+def predictTblN (p : Predict) (ncomp : Nat) (cs : List CoordArr) : List CoordArr :=
+  match cs with
+  | .d2 E :: .d2 N :: _ => (List.range ncomp).map fun k => .d2 (predictOn p none E N k)
+  | .d1 e :: .d1 n :: _ => (List.range ncomp).map fun k => .d1 (List.zipWith (fun x y => (p (x, y)).getD k 0) e n)
+  | _ => []
+/-- `make_xarray_grid(coordinates, data, data_names, dims=…, extra_coords_names=…)`. -/
+def makeXarrayGridN (coordinates data : List CoordArr) (data_names : List String) (dims : String × String) (extra_names : List String) :
+    Except Err Dataset :=
+  match coordinates with
+  | e :: n :: ex => makeGrid e n (ex.map (·.arr2)) (some (data.map (·.arr2))) (some data_names) dims (some extra_names)
+  | _ => .error .typeError
+
 /-- `BaseGridder.grid`. -/
 def gridModel (p : Predict) (ncomp : Nat) (a : GridArgs) : Except Err Dataset := do
   if a.coords.isSome && (a.spacing.isSome || a.shape.isSome) then Except.error Err.valueError
